@@ -32,6 +32,20 @@ def atoms():
     ]
 
 
+def free_vars(t) -> set:
+    """names of the uninterpreted constants of a term (own traversal, not halmos')"""
+    out, todo, seen = set(), [t], set()
+    while todo:
+        x = todo.pop()
+        if x.get_id() in seen:
+            continue
+        seen.add(x.get_id())
+        if z3.is_const(x) and x.decl().kind() == z3.Z3_OP_UNINTERPRETED:
+            out.add(str(x))
+        todo.extend(x.children())
+    return out
+
+
 def equivalent(a: list, b: list, timeout_ms=20000):
     """-> ('yes'|'no'|'unknown', model text)"""
     s = z3.Solver()
@@ -173,6 +187,16 @@ class Hist:
                         for c in list(old.conditions)[:2]:
                             vs |= set(old.get_var_set(c))
                         old.slice(vs)
+                    if old.sliced is not None and do_slice:
+                        # every constraint that mentions a sliced (state) variable belongs to the slice
+                        want = [c for c in old.conditions if free_vars(c) & {str(v) for v in vs}]
+                        have = [c for i, c in enumerate(old.conditions) if i in old.sliced]
+                        for c in want:
+                            if not any(c.eq(h) for h in have):
+                                problems.append(dict(kind="slice", step=step, what="slice",
+                                                     detail=f"the slice for variables {sorted(str(v) for v in vs)} lacks the constraint {c} "
+                                                            f"(slice = {have})"))
+                                break
                     frozen.append((old, list(old.conditions)))
                     solver = create_solver()
                     active = Path(solver)
